@@ -1143,6 +1143,28 @@ func (c *Ctx) SplitGoal(t *Term) []*Term {
 	return []*Term{t}
 }
 
+// HasQuantifier reports whether t contains a quantifier.
+func HasQuantifier(t *Term) bool {
+	seen := map[int]bool{}
+	var walk func(t *Term) bool
+	walk = func(t *Term) bool {
+		if seen[t.ID] {
+			return false
+		}
+		seen[t.ID] = true
+		if t.Op == "forall" || t.Op == "exists" {
+			return true
+		}
+		for _, a := range t.Args {
+			if walk(a) {
+				return true
+			}
+		}
+		return false
+	}
+	return walk(t)
+}
+
 // Size counts DAG nodes reachable from ts.
 func Size(ts ...*Term) int {
 	seen := map[int]bool{}
